@@ -86,12 +86,14 @@ _ACT = re.compile(r"^<(\w+) line \d+, col \d+ to line \d+, col \d+ of module (\w
 
 
 def tlc_mc(module, cfg, wd, workers=8, xmx="6g", timeout=1500, simulate=None, depth=None, env=None,
-           cases_out=None, extra=None):
+           cases_out=None, extra=None, coverage=True):
     """Run TLC on spec/<module>.tla with spec/<cfg>. Returns a dict of statistics.
     REPLAY lines are decoded into cases_out (one JSON object per line)."""
     out = os.path.join(wd, "%s.%s.out" % (module, os.path.basename(cfg)))
     cmd = _java_cmd(xmx, xss="512m") + ["-workers", str(workers), "-metadir", os.path.join(wd, "meta-" + os.path.basename(cfg)),
-                                         "-cleanup", "-noGenerateSpecTE", "-coverage", "1"]
+                                         "-cleanup", "-noGenerateSpecTE"]
+    if coverage:       # per-action counts (vacuity guard); too costly on deeply recursive specifications
+        cmd += ["-coverage", "1"]
     if simulate:
         cmd += ["-simulate", "num=%d" % simulate, "-seed", str(seed())]
         if depth:
